@@ -3,6 +3,7 @@ package main
 import (
 	"bufio"
 	"bytes"
+	"fmt"
 	"io"
 	"net"
 	"os"
@@ -249,6 +250,10 @@ type envCase struct {
 	addrs     []string          // net.InterfaceAddrs(), in order
 	via       map[string]string // field -> "env" | "alt" | "short" (-x v) | "sp" (--flag v); default --flag=v
 	envoyUser string            // ENVOY_USER ("" = unset)
+	binary    string            // --force-iptables-binary ("" = absent)
+	addrErr   bool              // net.InterfaceAddrs() fails
+	raw       map[string]string // field -> the literal text delivered instead of the canonical value (bool spellings)
+	emptyEnv  map[string]bool   // environment-only variables set to the EMPTY string (not unset)
 	uid       string            // what an empty --proxy-uid must default to (observed: passwd entry or 1337)
 	resolv    []string          // nameservers of /etc/resolv.conf (observed)
 }
@@ -314,6 +319,22 @@ func (e envCase) viaToken() string {
 	if e.envoyUser != "" {
 		parts = append(parts, "user="+e.envoyUser)
 	}
+	if e.binary != "" {
+		parts = append(parts, "binary="+e.binary)
+	}
+	if e.addrErr {
+		parts = append(parts, "addrerr=1")
+	}
+	for _, c := range contract {
+		if v, ok := e.raw[c.field]; ok {
+			parts = append(parts, "raw:"+c.field+"="+v)
+		}
+	}
+	for _, n := range []string{envOwnerGroupsInclude, envOwnerGroupsExclude, envLoopbackCidr} {
+		if e.emptyEnv[n] {
+			parts = append(parts, "empty:"+n)
+		}
+	}
 	return wire.EncList(parts)
 }
 
@@ -332,12 +353,23 @@ func envCaseFromTokens(t []string) (envCase, bool) {
 		return envCase{}, false
 	}
 	e := envCase{vals: v, uid: wire.Dec(t[25]), resolv: wire.DecList(t[26]), dual: t[27] == "1", addrs: wire.DecList(t[28]),
-		via: map[string]string{}}
+		via: map[string]string{}, raw: map[string]string{}, emptyEnv: map[string]bool{}}
 	for _, p := range wire.DecList(t[29]) {
+		if strings.HasPrefix(p, "empty:") {
+			e.emptyEnv[p[6:]] = true
+			continue
+		}
 		if k, val, ok := strings.Cut(p, "="); ok {
-			if k == "user" {
+			switch {
+			case k == "user":
 				e.envoyUser = val
-			} else {
+			case k == "binary":
+				e.binary = val
+			case k == "addrerr":
+				e.addrErr = true
+			case strings.HasPrefix(k, "raw:"):
+				e.raw[k[4:]] = val
+			default:
 				e.via[k] = val
 			}
 		}
@@ -411,9 +443,18 @@ func runRealEnv(e envCase) (out compiled, filled rawCfg) {
 	setOrUnset(envOwnerGroupsExclude, e.vals.OwnerGroupsExclude)
 	setOrUnset(envLoopbackCidr, e.vals.LoCidr)
 	setOrUnset(envEnvoyUser, e.envoyUser)
+	for n := range e.emptyEnv { // set, but to the empty string
+		os.Setenv(n, "")
+	}
 	var args []string
+	if e.binary != "" {
+		args = append(args, "--force-iptables-binary="+e.binary)
+	}
 	for _, c := range contract {
 		v, ok := e.value(c.field)
+		if r, has := e.raw[c.field]; has { // a literal spelling (bool values other than `true`)
+			v, ok = r, true
+		}
 		if !ok {
 			continue
 		}
@@ -432,8 +473,15 @@ func runRealEnv(e envCase) (out compiled, filled rawCfg) {
 	}
 	old := config.LocalIPAddrs
 	config.LocalIPAddrs = func() ([]net.Addr, error) {
+		if e.addrErr {
+			return nil, fmt.Errorf("route ip+net: no such network interface")
+		}
 		var l []net.Addr
 		for _, a := range e.addrs {
+			if strings.HasPrefix(a, "ipaddr:") { // not a *net.IPNet: getLocalIP skips it
+				l = append(l, &net.IPAddr{IP: net.ParseIP(a[7:])})
+				continue
+			}
 			ip := net.ParseIP(a)
 			bits := 128
 			if ip.To4() != nil {
